@@ -156,7 +156,7 @@ package ctlog
 //@   ensures [C06] refuse-existing: gCreateOK <= 1 && gReplaceTried == 0
 //@   ensures [C01,C06] publish-implies-create: gUpTried["checkpoint"] ==> gCreateOK == 1
 
-//@ func ctlog.LoadLog props C01 C03 C04 C06 C07 C08 C09
+//@ func ctlog.LoadLog props C01 C03 C04 C06 C07 C08 C09 C11
 //@   requires config != nil
 //@   init gReplaceTried == 0 && gCreateOK == 0 && gAppliedOK == 0 && gDiscarded == emptyset("set[string]")
 //@   call tlog.TileHashReader requires [C08] verify-against-lock-tree: c_tree == c.Tree
@@ -319,7 +319,7 @@ package ctlog
 
 // ---- lock backends (C05, reduced form: each method issues exactly one atomic primitive with the right shape)
 
-//@ func ctlog.(*SQLiteBackend).Replace props C01 C05 C06
+//@ func ctlog.(*SQLiteBackend).Replace props C01 C05 C06 C14 C15
 //@   requires b != nil && b.mu != nil && !held(b.mu)
 //@   init gExecs == 0
 //@   call sqlitex.Exec requires [C01,C05,C06] compare-and-swap-statement: c_query == "UPDATE checkpoints SET body = ? WHERE logID = ? AND body = ?" && len(c_args) == 3 && c_args[0] == iface(new) && c_args[1] == iface(bytes(o.logID)) && c_args[2] == iface(o.body)
@@ -329,20 +329,20 @@ package ctlog
 //@   returns [C01,C05,C06] token-carries-new-value: ret1 == nil ==> typeof(ret0) == typeid("*ctlog.sqliteCheckpoint") && cast(ret0, "*ctlog.sqliteCheckpoint").body == new && cast(ret0, "*ctlog.sqliteCheckpoint").logID == o.logID
 //@   ensures [C01,C05,C06] unlocked: !held(b.mu) && gExecs <= 1
 
-//@ func ctlog.(*SQLiteBackend).Create props C01 C05 C06
+//@ func ctlog.(*SQLiteBackend).Create props C01 C05 C06 C14 C15
 //@   requires b != nil && b.mu != nil && !held(b.mu)
 //@   init gExecs == 0
 //@   call sqlitex.Exec requires [C01,C05,C06] insert-if-absent-statement: c_query == "INSERT INTO checkpoints (logID, body) VALUES (?, ?)\n\t\tON CONFLICT(logID) DO NOTHING" && len(c_args) == 2 && c_args[0] == iface(bytes(logID)) && c_args[1] == iface(new) && held(b.mu)
 //@   returns [C01,C05,C06] success-only-if-inserted: ret == nil ==> gExecs == 1 && gLastChanges != 0
 //@   ensures [C01,C05,C06] unlocked: !held(b.mu)
 
-//@ func ctlog.(*SQLiteBackend).Fetch props C01 C05 C06
+//@ func ctlog.(*SQLiteBackend).Fetch props C01 C05 C06 C14 C15
 //@   requires b != nil && b.mu != nil && !held(b.mu)
 //@   call sqlitex.Exec requires [C01,C05,C06] select-statement: c_query == "SELECT body FROM checkpoints WHERE logID = ?" && len(c_args) == 1 && c_args[0] == iface(bytes(logID)) && held(b.mu)
 //@   returns [C01,C05,C06] not-found-sentinel: ret1 != nil ==> (ret1 == err || ret1 == ErrLogNotFound)
 //@   returns [C01,C05,C06] found-value: ret1 == nil ==> typeof(ret0) == typeid("*ctlog.sqliteCheckpoint") && cast(ret0, "*ctlog.sqliteCheckpoint").body == body && cast(ret0, "*ctlog.sqliteCheckpoint").logID == logID
 
-//@ func ctlog.(*DynamoDBBackend).Replace props C01 C05 C06
+//@ func ctlog.(*DynamoDBBackend).Replace props C01 C05 C06 C14 C15
 //@   requires b != nil
 //@   init gPutItems == 0
 //@   call dynamodb.(*Client).PutItem requires [C01,C05,C06] conditional-on-old-value: *c_params.ConditionExpression == "checkpoint = :old" && has(c_params.ExpressionAttributeValues, ":old") && cast(c_params.ExpressionAttributeValues[":old"], "*github.com/aws/aws-sdk-go-v2/service/dynamodb/types.AttributeValueMemberB").Value == o.body
@@ -350,32 +350,32 @@ package ctlog
 //@   returns [C01,C05,C06] success-only-if-put-succeeded: ret1 == nil ==> gPutItems == 1 && gPutItemOK
 //@   returns [C01,C05,C06] token-carries-new-value: ret1 == nil ==> cast(ret0, "*ctlog.dynamoDBCheckpoint").body == new && cast(ret0, "*ctlog.dynamoDBCheckpoint").logID == o.logID
 
-//@ func ctlog.(*DynamoDBBackend).Create props C01 C05 C06
+//@ func ctlog.(*DynamoDBBackend).Create props C01 C05 C06 C14 C15
 //@   requires b != nil
 //@   init gPutItems == 0
 //@   call dynamodb.(*Client).PutItem requires [C01,C05,C06] only-if-absent: *c_params.ConditionExpression == "attribute_not_exists(logID)" && cast(c_params.Item["checkpoint"], "*github.com/aws/aws-sdk-go-v2/service/dynamodb/types.AttributeValueMemberB").Value == new
 //@   returns [C01,C05,C06] success-only-if-put-succeeded: ret == nil ==> gPutItems == 1 && gPutItemOK
 
-//@ func ctlog.(*DynamoDBBackend).Fetch props C01 C05 C06
+//@ func ctlog.(*DynamoDBBackend).Fetch props C01 C05 C06 C14 C15
 //@   requires b != nil
 //@   call dynamodb.(*Client).GetItem requires [C01,C05,C06] consistent-read: c_params.ConsistentRead != nil && *c_params.ConsistentRead
 //@   returns [C01,C05,C06] not-found-sentinel: (ret1 != nil && err == nil) ==> ret1 == ErrLogNotFound
 //@   returns [C01,C05,C06] found-only-with-item: ret1 == nil ==> resp.Item != nil && err == nil
 
-//@ func ctlog.(*ETagBackend).Replace props C01 C05 C06
+//@ func ctlog.(*ETagBackend).Replace props C01 C05 C06 C14 C15
 //@   requires b != nil
 //@   init gPutObjects == 0
 //@   call s3.(*Client).PutObject requires [C01,C05,C06] same-key-one-conditional-option: *c_params.Key == o.key && len(c_optFns) == 1 && gPutObjects == 0
 //@   returns [C01,C05,C06] success-only-if-put-succeeded: ret1 == nil ==> gPutObjects == 1 && gPutObjectOK
 //@   returns [C01,C05,C06] token-carries-new-etag: ret1 == nil ==> cast(ret0, "*ctlog.eTagCheckpoint").body == new && cast(ret0, "*ctlog.eTagCheckpoint").key == o.key && cast(ret0, "*ctlog.eTagCheckpoint").eTag == *out.ETag
 
-//@ func ctlog.(*ETagBackend).Replace$1 props C01 C05 C06
+//@ func ctlog.(*ETagBackend).Replace$1 props C01 C05 C06 C14 C15
 //@   call http.AddHeaderValue requires [C01,C05,C06] if-match-on-fetched-etag: c_header == "If-Match" && c_value == o.eTag
 
-//@ func ctlog.(*ETagBackend).Create$1 props C01 C05 C06
+//@ func ctlog.(*ETagBackend).Create$1 props C01 C05 C06 C14 C15
 //@   call http.AddHeaderValue requires [C01,C05,C06] if-match-empty: c_header == "If-Match" && c_value == ""
 
-//@ func ctlog.(*ETagBackend).Fetch props C01 C05 C06
+//@ func ctlog.(*ETagBackend).Fetch props C01 C05 C06 C14 C15
 //@   requires b != nil
 //@   returns [C01,C05,C06] not-found-sentinel: gNoSuchKey ==> (ret1 != nil && Is(ret1, ErrLogNotFound))
 //@   returns [C01,C05,C06] found-with-etag: ret1 == nil ==> out.ETag != nil && cast(ret0, "*ctlog.eTagCheckpoint").eTag == *out.ETag && cast(ret0, "*ctlog.eTagCheckpoint").body == data
